@@ -1,7 +1,7 @@
 (* C08 model runner.  One history per line:
      <id> H <meta> <autosave> <autogc> <N> <T> <node>*N <op>*   (meta = seed.tier.index, ignored)
    node:  <m|b><d|-><s|-><x|-> ':' <succ,succ,..|-> ':' <subject|->
-   op:    P<k> | T<k>:<x>:<a|->:<t|d|D<j>> | U<t> | V<k> | D<k> | G | S | R | C | I<k> | X<v|i|a|f><id>
+   op:    P<k> | T<k>:<x>:<a|->:<t|d|D<j>> | U<t> | V<k> | D<k> | G | S | R | C | I<k> | X<v|i|a|f><id> | A<0|1> | W.. M.. (not judged)
    Output: <id> followed by one token per op: the result, or for C the observation
    of the store and of the store reopened from its directory (printed three times:
    oci.New, NewFromFS, NewFromTar all read the same index.json / blobs). *)
@@ -52,10 +52,10 @@ let () =
       let succs k = match inr k with Some i -> sc.(i) | None -> [] in
       let subj k = match inr k with Some i -> sj.(i) | None -> None in
       let nn = nat_of_int n and tn = nat_of_int t in
-      let cfg = { autosave = (asv = "1"); autogc = (agc = "1") } in
       let idnum = (try int_of_string (String.sub id 1 (String.length id - 1)) with _ -> 0) in
       let eval seed0 =
       let strays = ref [] and all_strays = ref [] in
+      let cfg = ref { autosave = (asv = "1"); autogc = (agc = "1") } in
       let st = ref store_empty in
       let buf = Buffer.create 256 in
       (* Go's map iteration orders are not controllable: the model is run with
@@ -73,7 +73,7 @@ let () =
         let d = rlists 6 10 in let e = rpairs 8 in
         { o_save1 = a; o_save2 = b; o_gc1 = c; o_gc2 = d; o_del = e } in
       let do_op o =
-        let (s', r) = step nn mf succs subj sk bad fix_f2 fix_a fix_f1 fix_hold fix_ref cfg !st (o, orders ()) in
+        let (s', r) = step nn mf succs subj sk bad fix_f2 fix_a fix_f1 fix_hold fix_ref !cfg !st (o, orders ()) in
         st := s'; Buffer.add_string buf (" " ^ show_result r) in
       let obs s =
         let b = Buffer.create 128 in
@@ -124,6 +124,7 @@ let () =
           if Buffer.sub buf before (Buffer.length buf - before) = " ok" then
             strays := List.filter (fun (_, k) -> not (gc_sweeps_stray k)) !strays
         | 'I' -> do_op (OInject (nat_of_int (ios arg)))
+        | 'A' -> do_op (OSetAutoGC (arg = "1")); cfg := { !cfg with autogc = (arg = "1") }
         | 'X' ->
           let k = match arg.[0] with 'v' -> SValidName | 'i' -> SInvalidName | 'a' -> SUnknownAlg | _ -> SBlobsFile in
           strays := !strays @ [("x" ^ arg, k)];
